@@ -528,14 +528,16 @@ fn show_history(k: usize, h: &[POp]) -> String {
     format!("x.v.B{k}: {}", h.iter().map(|o| o.show()).collect::<Vec<_>>().join("; "))
 }
 
-fn alphabet(k: usize) -> Vec<POp> {
+/// `n_values`: how many of the two well-typed values per writable property are in the alphabet
+/// (quick: 1, thorough: 2).
+fn alphabet(k: usize, n_values: usize) -> Vec<POp> {
     let mut v = vec![];
     for j in 0..MODES.len() {
         v.push(POp::Get(j));
     }
     v.push(POp::GetAll);
     for j in (0..MODES.len()).filter(|j| writable(*j)) {
-        for val in set_values(ty_of(k, j)) {
+        for val in set_values(ty_of(k, j)).into_iter().take(n_values) {
             v.push(POp::Set(j, val));
         }
     }
@@ -1011,7 +1013,7 @@ pub fn main(args: &Args) -> i32 {
     let (transitions, histories, dead) = (AtomicU64::new(0), AtomicU64::new(0), AtomicU64::new(0));
     let mut bank = vec![];
     for k in 0..4 {
-        let alpha = alphabet(k);
+        let alpha = alphabet(k, args.tier.pick(1, 2));
         let total = enumerate::count_strings(alpha.len(), depth);
         crate::osrv::par_items(total, 64, &report, &states, |n, acc| {
             let mut idx = vec![];
